@@ -159,13 +159,16 @@ impl Analysis {
             };
 
             if let Some(id) = id {
-                let def = self.get_or_create_definition_mut(DefinitionType::Symbol(nx));
-                if let Some(parent_scope) = symbols.parent(nx) {
-                    log::trace!("Adding usage for definition '{}' ({:?})", &id, nx);
-                    def.add_usage(DefinitionLocation {
-                        parent_scope,
-                        span: span.subspan(pos, pos + id.len() as u64),
-                    });
+                // 'super' is a keyword, not a usage of the symbol it leads to
+                if !id.is_super() {
+                    let def = self.get_or_create_definition_mut(DefinitionType::Symbol(nx));
+                    if let Some(parent_scope) = symbols.parent(nx) {
+                        log::trace!("Adding usage for definition '{}' ({:?})", &id, nx);
+                        def.add_usage(DefinitionLocation {
+                            parent_scope,
+                            span: span.subspan(pos, pos + id.len() as u64),
+                        });
+                    }
                 }
                 pos += id.len() as u64 + 1; // add 1 for the dot separator in the path
             }
